@@ -579,9 +579,70 @@ def float_floor_differences(maxtotal=24):
 # ------------------------------------------------------------------------------ run
 
 
+def dynrange_stream(ctx):
+    """cumulative cutoffs on spectra with a wide dynamic range: one (or two) values 1 next to a tail of N
+    values 2^-q spread over the sectors (all exactly representable; the tail's partial sums are exact in
+    floating point).  The cutoff sits half-way between two tail sums, far below eps * total weight: the
+    rule still prescribes an exact number of discarded values.  Real code only (exact Fraction oracle)."""
+    import symmray as sr
+
+    rng = random.Random(ctx.seed * 977 + 1313)
+    for _ in range(12 if ctx.tier == "quick" else 80):
+        sym = rng.choice(["Z2", "U1"])
+        q = rng.choice([27, 30, 33])
+        nsec = rng.randint(2, 3)
+        charges = [0, 1, 2][:nsec] if sym == "U1" else [0, 1]
+        nsec = len(charges)
+        sizes = [rng.randint(8, 30) for _ in charges]
+        big = rng.randrange(nsec)
+        cm = {c: n for c, n in zip(charges, sizes)}
+        i0, i1 = sr.BlockIndex(cm, dual=False), sr.BlockIndex(cm, dual=True)
+        secvals, blocks = [], {}
+        for k, c in enumerate(charges):
+            d = [2.0 ** -q] * sizes[k]
+            if k == big:
+                d[0] = 1.0
+            d.sort(reverse=True)
+            secvals.append([Fraction(v) for v in d])
+            blocks[(c, c)] = _signed_perm(rng, sizes[k]) @ np.diag(d) @ _signed_perm(rng, sizes[k])
+        cls, kw = gen.array_class(sym, False, True)
+        x = cls(indices=(i0, i1), charge=0, blocks=blocks, **kw)
+        ntail = sum(sizes) - 1
+        for mode in (3, 4, 5, 6):
+            pw = 2 if mode in (3, 4) else 1
+            w = Fraction(1, 2 ** (q * pw))
+            m = rng.randint(1, ntail - 1)
+            cutoff = (m + Fraction(1, 2)) * w
+            ctx.evaluations += 1
+            ctx.stat(f"dynrange:mode={mode}")
+            case = dict(stream="dynrange", sym=sym, q=q, sizes=sizes, big_sector=big, mode=mode,
+                        cutoff=[cutoff.numerator, cutoff.denominator])
+            try:
+                _, s_, _ = sr.linalg.svd_truncated(x.copy(), cutoff=float(cutoff), cutoff_mode=mode, max_bond=-1,
+                                                   absorb=None)
+                _, s0, _ = sr.linalg.svd(x.copy())
+            except Exception as e:  # noqa
+                ctx.violation(f"svd_truncated raised {type(e).__name__}: {e}", case, op="svd_truncated")
+                return
+            if any([float(v) for v in np.asarray(s0.blocks[c])] != [float(v) for v in vs]
+                   for c, vs in zip(charges, secvals)):
+                ctx.stat("dynrange:lapack_inexact_skipped")
+                continue
+            counts = [int(np.size(s_.blocks[c])) if c in s_.blocks else 0 for c in charges]
+            want, _thr = spec_counts(secvals, cutoff, mode, -1)
+            if sum(counts) != sum(want) or counts[big] < 1:
+                ctx.violation(f"cumulative cutoff (mode {mode}) far below eps*total: keeps {sum(counts)} values, the rule "
+                              f"prescribes {sum(want)} (discard the longest tail whose weight stays below the cutoff; "
+                              f"tail of {ntail} values 2^-{q})", case, op="svd_truncated",
+                              detail=dict(counts=counts, prescribed=want))
+                return
+
+
 def run(ctx):
     import symmray as sr  # noqa
     from symmray.linalg import calc_sub_max_bonds
+
+    dynrange_stream(ctx)
 
     quick = ctx.tier == "quick"
     nchunks = 16
